@@ -10,7 +10,7 @@ def hx (l : List Nat) : String := if l = [] then "-" else String.ofList (l.flatM
 
 def urlStrs : List String :=
   ["http://h/p?b=2&a=1", "http://example.org/", "foo:bar ?y=%ff#f", "http://h/?x=%41&y", "nonsense", "", "https://a.b/c/d?q=1&q=2#z",
-   "file:///c:/x?k=v", "?k=v#z", "//other/p?z", "http://h/?", "foo:opaque  ?a=b"]
+   "file:///c:/x?k=v", "?k=v#z", "//other/p?z", "http://h/?", "foo:opaque  ?a=b", "http://a b/", "http://h:99999/x?q=1"]
 def setStrs : List String := ["", "?x=1&y=2", "a=1", "#f", "/p/q", "8080", "host.example", "https", "?", "x y=%20&z"]
 def names : List String := ["a", "b", "y", "z", "k", "q"]
 def vals : List String := ["1", "2", "", "x y", "&", "%41"]
@@ -26,8 +26,16 @@ def genOp (h : Heap) (s : Nat) : HOp × Nat :=
   let ps := h.params.map (·.1)
   let s1 := lcg s; let s2 := lcg s1; let s3 := lcg s2; let s4 := lcg s3; let s5 := lcg s4
   let u1 := nth us (pick s2 us.length); let u2 := nth us (pick s3 us.length)
-  let p1 := nth ps (pick s2 ps.length); let p2 := nth ps (pick s3 ps.length)
-  let k := pick s1 30
+  -- half of the time the params object operated on is one that a VALID url owns (the only case where update() writes
+  -- through the back pointer); otherwise any live one
+  let owned := ps.filter (fun p => match (h.getP p).bind (·.urlPtr) with
+    | some u => ((h.getU u).bind (·.url)).isSome
+    | none => false)
+  let p1 := if owned.length > 0 && pick s4 2 = 0 then nth owned (pick s2 owned.length) else nth ps (pick s2 ps.length)
+  let p2 := nth ps (pick s3 ps.length)
+  -- operations that make valid urls with params objects are drawn more often than their share
+  let k0 := pick s1 44
+  let k := if k0 < 30 then k0 else if k0 < 34 then 21 else if k0 < 38 then 2 else 99
   let op : HOp :=
     match k with
     | 0 => .newUrl
@@ -57,8 +65,9 @@ def genOp (h : Heap) (s : Nat) : HOp × Nat :=
     | _ =>
       let n := (nth names (pick s4 6)).toUTF8.toList.map (·.toNat)
       let v := (nth vals (pick s5 6)).toUTF8.toList.map (·.toNat)
-      let m : PMut := match pick (lcg s5) 7 with
+      let m : PMut := match pick (lcg s5) 9 with
         | 0 => .append n v | 1 => .set n v | 2 => .del n | 3 => .remove n | 4 => .sort | 5 => .clear
+        | 7 => .del2 n v | 8 => .remove2 n v
         | _ => .parse true ((nth setStrs (pick s3 setStrs.length)).toUTF8.toList.map (·.toNat))
       .paramsMutate p1 m
   (op, s5)
